@@ -513,12 +513,27 @@ def bytesLe : Bytes → Bytes → Bool
 def sortKVs (kvs : List (Bytes × KVal)) : List (Bytes × KVal) :=
   kvs.mergeSort (fun a b => bytesLe a.1 b.1)
 
-/-- writer-side `kv.Uint("general.alignment", 32)` -/
+/-- The alignment a key/value list asks for, where it is well defined: 32 when the key is absent, the value when it is a
+    uint32.  This is the INPUT GUARD of the round-trip theorems (`alignmentIn kvs = .ok align`): it says "the
+    `general.alignment` key is absent or holds the uint32 `align`". -/
 def alignmentIn (kvs : List (Bytes × KVal)) : Except Err Nat :=
   match ((kvs.find? (fun p => p.1 = keyAlignment)).map (·.2) : Option KVal) with
   | none => .ok 32
   | some (KVal.u32 v) => .ok (v % 4294967296)
-  | some _ => .error (.panic "alignment-type")
+  | some _ => .error (.invalid "general.alignment")
+
+/-- What `WriteGGUF` does with the key: `kv.Uint("general.alignment", 32)` (+ the repaired writer's validation).
+    `strict = false` — upstream and the tree before repair C05 F1c: `keyValue[uint32]` treats a key stored with ANOTHER TYPE
+    as missing, so the file is laid out with 32 while the key is written with its own type, and a zero is only noticed when a
+    tensor has to be padded (divide by zero).  The decoder rejects both files (finding F1c).
+    `strict = true` — the repaired writer returns `invalid general.alignment` unless the key is absent or a non-zero uint32.
+    Which of the two the working tree has is PROBED by the driver on every run (variant bit 1 of `gguf-enc`). -/
+def writerAlignment (strict : Bool) (kvs : List (Bytes × KVal)) : Except Err Nat :=
+  match ((kvs.find? (fun p => p.1 = keyAlignment)).map (·.2) : Option KVal) with
+  | none => .ok 32
+  | some (KVal.u32 v) =>
+    if strict ∧ v % 4294967296 = 0 then .error (.invalid "general.alignment") else .ok (v % 4294967296)
+  | some _ => if strict then .error (.invalid "general.alignment") else .ok 32
 
 /-- Offsets declared in the tensor infos.  `pinned = true` reproduces the accumulator of the
     pinned upstream tree (`s += t.Size()`: padding never added back, finding F1);
@@ -552,9 +567,9 @@ def encHead (pinned : Bool) (align : Nat) (kvs : List (Bytes × KVal)) (ts : Lis
     ++ encTInfos ts (offsets pinned align ts 0)
 
 /-- `WriteGGUF(ws, kv, ts)`; `ts` is given in the order the (stable, comparator-driven) sort
-    left it — the sort is a parameter of the model: any permutation is covered. -/
-def encode (pinned : Bool) (kvs : List (Bytes × KVal)) (ts : List TIn) : Except Err Bytes := do
-  let align ← alignmentIn kvs
+    left it — the sort is a parameter of the model: any permutation is covered.  `strict`: see `writerAlignment`. -/
+def encode (pinned : Bool) (kvs : List (Bytes × KVal)) (ts : List TIn) (strict : Bool := false) : Except Err Bytes := do
+  let align ← writerAlignment strict kvs
   if align = 0 ∧ ts ≠ [] then .error (.panic "alignment-zero")
   else
     let head := encHead pinned align kvs ts
